@@ -337,17 +337,24 @@ func ZZ_C12_H6() {
 	defer func() { disabaleRequestContextPool = old }()
 	disabaleRequestContextPool = zz.Choose("contextPoolDisabled", 2) == 1
 	n := zz.Range("handlers", 1, 3)
+	firstAborts := zz.Choose("firstRequestAborts", 2) == 1 // the first handler of the first request calls Abort
 	var tr []int
+	reqNo := 0
 	chain := make(app.HandlersChain, n)
 	for i := range chain {
 		id := i
 		chain[i] = func(c context.Context, ctx *app.RequestContext) {
 			tr = append(tr, id)
+			if firstAborts && reqNo == 1 && id == 0 {
+				ctx.Abort()
+				return
+			}
 			ctx.Next(c)
 		}
 	}
 	core := zzNewCore(func(c context.Context, ctx *app.RequestContext) {
 		// what Engine.ServeHTTP does with the matched route's chain
+		reqNo++
 		ctx.SetHandlers(chain)
 		ctx.Next(c)
 	})
@@ -362,10 +369,21 @@ func ZZ_C12_H6() {
 	_ = s.Serve(context.Background(), standard.ZZNewConn(nc))
 	zz.Cover("reached-assert", true)
 	zz.Cover("pool-disabled", disabaleRequestContextPool)
-	ok := len(tr) == k*n
+	// expected trace: the full chain per request, except that an aborting first request stops
+	// after its first handler - and only that request
+	var want []int
+	for r := 1; r <= k; r++ {
+		for i := 0; i < n; i++ {
+			want = append(want, i)
+			if firstAborts && r == 1 {
+				break
+			}
+		}
+	}
+	ok := len(tr) == len(want)
 	if ok {
-		for i, id := range tr {
-			if id != i%n {
+		for i := range tr {
+			if tr[i] != want[i] {
 				ok = false
 			}
 		}
